@@ -38,6 +38,8 @@ class InjectedCallbackError(Exception):
 
 def _arr_bytes(a) -> bytes:
     a = np.asarray(a)
+    if a.dtype == object:  # e.g. a None inside a value list: tobytes() would hash pointers
+        return b"object" + str(a.shape).encode() + repr(a.tolist()).encode()
     return str(a.dtype).encode() + str(a.shape).encode() + np.ascontiguousarray(a).tobytes()
 
 
@@ -79,13 +81,17 @@ def digest_frame(fd: dict) -> str:
 def snap(obj, depth=0):
     """Structural snapshot of a caller-owned object (content, order, identities of leaves)."""
     if isinstance(obj, dict):
-        return ("dict", tuple((k, snap(v, depth + 1)) for k, v in obj.items()))
+        # identities too: replacing a nested container or a leaf object of the caller's dict by an
+        # equal copy is a modification of the caller's object
+        return ("dict", tuple((k, id(v), snap(v, depth + 1)) for k, v in obj.items()))
     if isinstance(obj, (list, tuple)):
         return (type(obj).__name__, tuple((id(v), snap(v, depth + 1)) for v in obj))
     if obj is None or isinstance(obj, (bool, int, float, str)):
         return (type(obj).__name__, obj if obj == obj else "nan")
     try:
         a = np.asarray(obj)
+        if a.dtype == object:
+            return (type(obj).__name__, "object", a.shape, repr(a.tolist()))
         return (type(obj).__name__, str(a.dtype), a.shape, hashlib.sha256(np.ascontiguousarray(a).tobytes()).hexdigest()[:16])
     except Exception:  # noqa: BLE001
         return (type(obj).__name__, id(obj))
@@ -132,6 +138,7 @@ class Incarnation:
         self.handles: dict = {}
         self.models: dict = {}  # mid -> (model, fns, meta)
         self.params_objs: dict = {}
+        self.params_refs: dict = {}
         self.batch_objs: dict = {}
         self.vf_objs: dict = {}  # op id -> list as returned by lcm / loaded
         self.vf_np_objs: dict = {}
@@ -289,7 +296,10 @@ class Incarnation:
         key = op.get("pobj") or f"auto:{op['params']}:{op.get('leaf', 'float')}"
         if key not in self.params_objs:
             vals = self.plan["params"][op["params"]]["values"]
-            self.params_objs[key] = self._build_params(vals, op.get("leaf", "float"))
+            obj = self._build_params(vals, op.get("leaf", "float"))
+            self.params_objs[key] = obj
+            # the caller keeps its own references to the nested containers it built
+            self.params_refs[key] = {k: v for k, v in obj.items() if isinstance(v, dict)}
         return self.params_objs[key]
 
     def resolve_batch(self, bid, form):
@@ -523,7 +533,7 @@ class Incarnation:
             if obj is None:
                 raise _Skip("params object not created yet")
             new_vals = self.plan["params"][op["to"]]["values"]
-            self._overwrite_params(obj, new_vals, op.get("leaf", "float"))
+            self._overwrite_params(obj, new_vals, op.get("leaf", "float"), self.params_refs.get(key, {}))
         elif what == "batch":
             obj = self.batch_objs.get(key)
             if obj is None:
@@ -550,10 +560,12 @@ class Incarnation:
                     lst[i] = a.copy()
         rec["mutated"] = [what, key]
 
-    def _overwrite_params(self, obj, vals, leaf):
+    def _overwrite_params(self, obj, vals, leaf, refs=None):
         for k, v in vals.items():
             if isinstance(v, dict):
-                self._overwrite_params(obj[k], v, leaf)
+                # write through the nested dict the caller created (normally obj[k] itself)
+                inner = (refs or {}).get(k, obj[k])
+                self._overwrite_params(inner, v, leaf)
             else:
                 cur = obj.get(k)
                 if isinstance(cur, np.ndarray) and cur.flags.writeable and cur.shape == np.shape(v):
